@@ -143,17 +143,17 @@ def build_traces(path, tier, seed):
         a, b = eqsig.AccSignal(ns, dt), eqsig.AccSignal(we, dt)
         ns, we = np.asarray(ns, dtype=float), np.asarray(we, dtype=float)
         if m == "pga":
-            ang, vals = multiple.compute_rotated(a, b, angle_off_ns=off, parameter="pga", points=points)
+            ang, vals = multiple.compute_rotated(a, b, angle_off_ns=off, parameter="pga", points=gen.intlike(rng, points))
         elif m == "pgv":
-            ang, vals = multiple.compute_rotated(a, b, angle_off_ns=off, func=lambda s: s.pgv, points=points)
+            ang, vals = multiple.compute_rotated(a, b, angle_off_ns=off, func=lambda s: s.pgv, points=gen.intlike(rng, points))
         elif m == "arias":
-            ang, vals = multiple.compute_rotated(a, b, angle_off_ns=off, parameter="arias_intensity", points=points)
+            ang, vals = multiple.compute_rotated(a, b, angle_off_ns=off, parameter="arias_intensity", points=gen.intlike(rng, points))
         elif m == "velocity":
             ang, vals = multiple.compute_rotated(a, b, off, "velocity", None, points)        # positional; array-valued attribute
             vals = np.asarray(vals)
             vals = [enc_seq(r) for r in vals] if vals.ndim == 2 else enc_seq(vals)
         else:
-            ang, vals = multiple.compute_rotated(a, b, angle_off_ns=off, func=im.calc_cav, points=points)
+            ang, vals = multiple.compute_rotated(a, b, angle_off_ns=off, func=im.calc_cav, points=gen.intlike(rng, points))
         if m != "velocity":
             vals = enc_seq(vals)
         tid += 1
@@ -207,8 +207,8 @@ def build_traces(path, tier, seed):
             s_idx, e_idx = int(1 / dt), n - 1
         with warnings.catch_warnings():
             warnings.simplefilter("ignore")
-            c = eqsig.Cluster([s.copy() for s in sigs], dt, master_index=master, stypes="acc" if i % 2 else "custom")
-            c.time_match(steps=steps)
+            c = eqsig.Cluster([s.copy() for s in sigs], dt, master_index=gen.intlike(rng, master), stypes="acc" if i % 2 else "custom")
+            c.time_match(steps=gen.intlike(rng, steps))
             v1raw = [c.values_by_index(j) for j in range(k)]
             arr1 = [bool(isinstance(v, np.ndarray) and v.dtype.kind in "fiu") for v in v1raw]
             v1 = [np.array(v, dtype=float) for v in v1raw]
